@@ -1,24 +1,54 @@
 """C30 — network transfer costs match route enumeration.
 
-Finite domain, enumerated completely: every (topology, relevancy, fanout n, stride, volume)
-in the tier's box is compared with vf/ref/routes.py, which places the (non-distributed)
-source at node 0 of a line (or on a switch), routes every value link by link and counts link
-traversals and per-link load."""
+Two families, both run by every invocation (labels family:exhaustive / family:e2e):
 
-from vf.core import Violation, close, must
+* exhaustive ("box") family — finite domain, enumerated completely: every (topology, relevancy,
+  fanout n, stride, volume) in the tier's box is compared with vf/ref/routes.py, which places the
+  (non-distributed) source at node 0 of a line (or on a switch), routes every value link by link
+  and counts link traversals and per-link load.  Observes per_loop_transfer_cost only.
+
+* end-to-end family — Hypothesis-generated small evaluate_mapping cases: one Einsum, MainMemory ->
+  Network (mesh or all_to_all) -> PeBuffer with a spatial fanout (one or two mesh axes) -> MAC and
+  a mapping whose 1-3 spatial loops split the axes between nested fanouts.  The reported per-tensor
+  hop counts and the reported maximum link traffic are compared with vf/ref/routes.nest_routes,
+  which routes every tile of every tensor link by link through the whole nest.  This is what sees
+  the stride (fanout below) that the analyzer hands to the topology model, the volumes, and the
+  accumulation over nested loops and over tensors."""
+
+from hypothesis import strategies as st
+
+from vf.core import Violation, close, drive, hash32, must
 from vf.ref import routes as R
 
 PROPERTY = "C30"
 LEVEL = "exploration"
-EXHAUSTIVE = True
+EXHAUSTIVE = True   # the box family is enumerated completely; e2e shards report exhaustive=False, so the evidence
+#                     of a full run says exhaustive=false and extra box_family_shards_completed counts the box shards
 RULE = (
+    "Two families. [family:exhaustive] "
     "Exhaustive enumeration of topology in {mesh, all_to_all} x relevancy in {Irrelevant (multicast), "
     "Relevant (unicast)} x fanout n in 1..N x stride in 1..S x volume in a fixed list (ints, a non-integer, "
     "a sympy symbol); source not physically distributed. total_cost and max_traffic of "
     "get_topology_model(t).per_loop_transfer_cost(...) are compared with explicit route enumeration "
     "(hops*volume, max link load*volume; symbolic volume compared by substitution at 3 points). "
     "Non-trivial: n >= 2 (at least one route exists). Distinct = distinct (topology, relevancy, n, stride, volume). "
-    "n = 1 asserts total hops == 0 only."
+    "n = 1 asserts total hops == 0 only. "
+    "[family:e2e] Hypothesis-generated evaluate_mapping cases: one Einsum (matmul 60%, matvec, elementwise, outer product; "
+    "rank sizes = product of the loop factors, <= 3*32*3), 1/5/8/16 bits per value, arch MainMemory -> Network(topology mesh "
+    "or all_to_all, total_latency = max_link_traffic, hop energy 1) -> PeBuffer(spatial X [and Y on a mesh], fanout = used "
+    "fanout + slack in {0,1,3}) -> MAC, all tensors kept in both memories; mapping: 0-2 temporal loops above the fanout (2-3 "
+    "iterations, only over rank variables of the output), then 1-3 spatial loops over distinct rank variables in generated "
+    "order (shapes: one loop x2..32; two or three nested loops on the SAME axis with product <= 32; two axes X../Y.. with "
+    "<= 8 PEs each; X,Y,X with the X axis (<= 16 PEs) split around a Y loop of 2-4), tile shape = what is left for the temporal loop below (1-3), "
+    "one loop in 12 degenerate (fanout 1), PeBuffer storage, remaining rank variables as temporal loops of tile 1 below. "
+    "Per tensor the reported hop action count of the Network, and the Network latency (= reported max link traffic), are "
+    "compared with vf/ref/routes.nest_routes: PE coordinate on an axis = mixed-radix number of the loop indices on that axis "
+    "(outer loop most significant, so an outer loop's destinations are 'fanout below' apart), source at coordinate 0, every "
+    "level delivers one tile per destination (own tile if the loop's rank variable indexes the tensor, else one shared tile "
+    "crossing each link once) and the next level fans out from each destination; volumes are tile sizes in bits below the "
+    "loop; link loads are summed over the three tensors; everything x the iterations of the temporal loops above. "
+    "Non-trivial: >= 1 spatial loop with fanout >= 2. Label e2e:nested_same_dim = two loops with fanout >= 2 share an axis "
+    "(outer stride > 1). Distinct = distinct descriptor."
 )
 ASSUMPTIONS = [
     "source is not physically distributed (_get_physical_fanout_along == 1), as the property states",
@@ -26,8 +56,28 @@ ASSUMPTIONS = [
     "on the switch one source->switch->destination delivery is one hop and the switch replicates shared values",
     "max_hops is not part of the property and is not asserted",
     "n = 1 (no route at all): only total hops == 0 is asserted (DESIGN.md §8)",
+    "e2e: delivery is hierarchical and follows the spatial loops top to bottom (components.py: 'the routing follows the "
+    "order of the spatial nodes'): a level's tile is brought to the level's destination, the next level fans out from there",
+    "e2e: an output tile reduced/collected towards the source is routed like an operand tile of the same size and loads the "
+    "same links (links are not directional); a loop that does not index the output is a reduction and counts as a shared tile",
+    "e2e: every storage node refetches its tile whenever an enclosing loop advances (the documented rule C05/C06 rely on), so "
+    "t iterations of temporal loops above the fanout route everything t times. Only loops over rank variables of the OUTPUT "
+    "are generated above the fanout: under a reduction loop the output tile travels up and down again each iteration while "
+    "the model counts it once per iteration -- how often it should be counted is not settled by the statement, so that class "
+    "is not generated (observation reported, not asserted)",
+    "e2e: all_to_all is generated with ONE axis only: with two axes the statement does not say whether there is one switch "
+    "per axis line or one for all PEs (the model takes the per-axis maximum); mesh is generated with one or two axes",
+    "e2e: a spatial loop with fanout 1 (no route) is generated occasionally; such cases assert hops only (same rule as n = 1)",
+    "e2e: no temporal loop between two spatial loops, no tensor bypassing the PE buffer, perfect factorisation only, "
+    "source not distributed (MainMemory has no spatial fanout), bits_per_action of the network left at its default",
+    "e2e: two defects found by this family were repaired in /repo (02db3c3, e0744ea; known_findings.json); their keys are kept as classifications of a regression: key '" + "e2e:traffic:temporal-loop-above-not-scaled" + "' is raised "
+    "only when the reported traffic equals the routed traffic of exactly one iteration, key '"
+    + "e2e:mesh:traffic:other-axis-dropped" + "' only on two axes and only when it equals the routed traffic of the top run of "
+    "same-axis loops alone (per iteration or times the iterations above); any "
+    "other value is an ordinary e2e:<topology>:traffic violation",
 ]
-TOLERANCE = "rel 1e-9 on numeric results (closed forms use 0.5*n*(n+1) floats)"
+TOLERANCE = ("rel 1e-9 on numeric results of the box family (closed forms use 0.5*n*(n+1) floats); rel 1e-6 on the e2e "
+             "family's reported hop counts and max link traffic")
 LIMITS = {
     "quick": {"n": 32, "stride": 8, "volumes": [1, 3, 8, 2.5, "V"]},
     "thorough": {"n": 64, "stride": 12, "volumes": [1, 3, 8, 2.5, 0.125, 1000, 7, "V"]},
@@ -45,6 +95,22 @@ MUTANTS = [
      "key": "mesh:multicast:total"},
     {"what": "AllToAllTopologyModel: n_dsts = shape_repeats (source delivers to itself)", "caught": True,
      "key": "all_to_all:multicast:total"},
+    # end-to-end family (tools/mutate.sh, quick tier, seed 1); none of these is visible to the box family
+    {"what": "NetworkAnalyzer.accumulate_child_result: stride (last_fanout) looked up under (network.component, einsum) "
+             "instead of (self.node.component, einsum) -> stride silently 1 when an axis is split between nested loops "
+             "(= seeded/C30/patch.diff)", "caught": True, "key": "e2e:mesh:hops",
+     "note": "shrunk to matvec, k:X x2 over m:X x2, 1 bit: A reported 4 hops, routed 6"},
+    {"what": "accumulate_child_result: inner loops' hops not multiplied by the outer fanout "
+             "(+ child_network_stats.total_hops instead of * shape_repeats)", "caught": True,
+     "key": "e2e:mesh:hops, e2e:all_to_all:hops"},
+    {"what": "_get_data_volume: tile occupancy not multiplied by actions_per_value (bits per value ignored)",
+     "caught": True, "key": "e2e:mesh:hops, e2e:all_to_all:hops"},
+    {"what": "accumulate_child_result: max_traffic of the inner loop on the same axis not added (+ 0)", "caught": True,
+     "key": "e2e:mesh:traffic, e2e:all_to_all:traffic"},
+    {"what": "_symbolic.analyze_spatial: fanout[node_dim] += shape_repeats (fanout below not multiplied in; wrong stride "
+             "for the outermost of three nested loops)", "caught": True, "key": "e2e:mesh:hops"},
+    {"what": "NetworkStats.repeat: total_hops not multiplied by the iterations of a temporal loop above the fanout",
+     "caught": True, "key": "e2e:mesh:hops, e2e:all_to_all:hops"},
 ]
 
 
@@ -89,7 +155,7 @@ def _matches(got, units, volume, sym):
     return True
 
 
-def check(desc, col):
+def _check_box(desc, col):
     import sympy
     from accelforge.frontend._workload_isl._symbolic import Irrelevant, Relevant
     from accelforge.frontend.arch.components import TopologySpec
@@ -111,7 +177,7 @@ def check(desc, col):
     volclass = "symbolic" if sym is not None else ("int" if float(vol).is_integer() else "frac")
     nontrivial = n >= 2
     col.case(desc, nontrivial,
-             labels=[f"{topo}:{kind}", f"volume:{volclass}", "n=1" if n == 1 else ("n=2" if n == 2 else "n>=3"),
+             labels=["family:exhaustive", f"{topo}:{kind}", f"volume:{volclass}", "n=1" if n == 1 else ("n=2" if n == 2 else "n>=3"),
                      "stride=1" if stride == 1 else "stride>1"],
              sample={"case": desc, "ref_hops_units": hops, "ref_max_link_units": max_load,
                      "got_total": str(cost.total_cost), "got_max_traffic": str(cost.max_traffic)}
@@ -127,12 +193,285 @@ def check(desc, col):
             f"link carries {max_load} x volume", key=f"{topo}:{kind}:traffic")
 
 
+# =============================================================================================
+# End-to-end family
+# =============================================================================================
+
+E2E_WORKLOADS = {   # einsum text, {tensor: rank variables}, output tensor
+    "matmul": ("Z[m,n] = A[m,k] * B[k,n]", {"A": ["m", "k"], "B": ["k", "n"], "Z": ["m", "n"]}, "Z"),
+    "matvec": ("Z[m] = A[m,k] * B[k]", {"A": ["m", "k"], "B": ["k"], "Z": ["m"]}, "Z"),
+    "elementwise": ("Z[m,n] = A[m,n] * B[m,n]", {"A": ["m", "n"], "B": ["m", "n"], "Z": ["m", "n"]}, "Z"),
+    "outer": ("Z[m,n] = A[m] * B[n]", {"A": ["m"], "B": ["n"], "Z": ["m", "n"]}, "Z"),
+}
+KEY_TEMPORAL_ABOVE = "e2e:traffic:temporal-loop-above-not-scaled"
+KEY_OTHER_AXIS = "e2e:mesh:traffic:other-axis-dropped"
+
+
+def _e2e_rvs(workload):
+    proj = E2E_WORKLOADS[workload][1]
+    return sorted({r for p in proj.values() for r in p})
+
+
+def _factorisations(nloops, limit):
+    """All tuples of nloops fanouts >= 2 with product <= limit."""
+    out = [()]
+    for _ in range(nloops):
+        out = [t + (f,) for t in out for f in range(2, limit + 1)]
+        out = [t for t in out if _prod(t) <= limit]
+    return out
+
+
+def _prod(xs):
+    p = 1
+    for x in xs:
+        p *= x
+    return p
+
+
+_FACT = {(k, lim): _factorisations(k, lim) for k, lim in ((1, 32), (2, 32), (3, 32), (1, 8), (2, 8), (2, 16))}
+
+
+@st.composite
+def e2e_cases(draw):
+    workload = draw(st.sampled_from(["matmul"] * 6 + ["matvec", "elementwise", "outer", "outer"]))
+    _, proj, out = E2E_WORKLOADS[workload]
+    rvs = _e2e_rvs(workload)
+    topology = draw(st.sampled_from(["mesh", "mesh", "mesh", "all_to_all", "all_to_all"]))
+    shape = draw(st.sampled_from(["single"] * 3 + ["nested2"] * 8 + ["nested3"] * 3 + ["twoD"] * 4 + ["interleaved"] * 2))
+    if shape in ("nested3", "interleaved") and len(rvs) < 3:
+        shape = "nested2"
+    if shape in ("twoD", "interleaved") and topology != "mesh":
+        shape = "nested2"
+    order = list(draw(st.permutations(rvs)))
+    if shape == "single":
+        dims, fans = ["X"], draw(st.sampled_from(_FACT[(1, 32)]))
+    elif shape == "nested2":
+        dims, fans = ["X", "X"], draw(st.sampled_from(_FACT[(2, 32)]))
+    elif shape == "nested3":
+        dims, fans = ["X", "X", "X"], draw(st.sampled_from(_FACT[(3, 32)]))
+    elif shape == "interleaved":
+        a, c = draw(st.sampled_from(_FACT[(2, 16)]))
+        dims, fans = ["X", "Y", "X"], (a, draw(st.sampled_from([2, 2, 3, 4])), c)
+    else:
+        first, second = draw(st.sampled_from([("X", "Y"), ("Y", "X")]))
+        n1 = draw(st.sampled_from([1, 2, 2])) if len(rvs) >= 3 else 1
+        n2 = 1 if (n1 == 2 or len(rvs) < 3) else draw(st.sampled_from([1, 2]))
+        f1 = draw(st.sampled_from(_FACT[(n1, 8)]))
+        f2 = draw(st.sampled_from(_FACT[(n2, 8)]))
+        dims, fans = [first] * n1 + [second] * n2, f1 + f2
+    fans = list(fans)
+    if draw(st.integers(0, 11)) == 0:                       # a degenerate one-iteration spatial loop
+        fans[draw(st.integers(0, len(fans) - 1))] = 1
+    spatial = [{"rv": order[i], "dim": dims[i], "fanout": fans[i]} for i in range(len(dims))]
+    rest = {r: draw(st.sampled_from([1, 1, 1, 2, 3])) for r in rvs}
+    below = [r for r in draw(st.permutations(rvs)) if rest[r] > 1 or draw(st.booleans())]
+    above = []
+    if shape != "interleaved":
+        cand = list(draw(st.permutations(proj[out])))       # only loops that index the output (see ASSUMPTIONS)
+        for r in cand[:draw(st.sampled_from([0, 0, 0, 1, 1, 2]))]:
+            above.append({"rv": r, "iters": draw(st.sampled_from([2, 2, 3]))})
+    slack = {d: draw(st.sampled_from([0, 0, 0, 1, 3])) for d in sorted(set(dims))}
+    return {"family": "e2e", "topology": topology, "workload": workload, "bits": draw(st.sampled_from([1, 8, 8, 16, 5])),
+            "above": above, "spatial": spatial, "rest": rest, "below": below, "slack": slack}
+
+
+def _e2e_sizes(desc):
+    size = {}
+    for r in _e2e_rvs(desc["workload"]):
+        s = desc["rest"].get(r, 1)
+        for lp in desc["spatial"]:
+            if lp["rv"] == r:
+                s *= lp["fanout"]
+        for lp in desc["above"]:
+            if lp["rv"] == r:
+                s *= lp["iters"]
+        size[r] = s
+    return size
+
+
+def _e2e_build(desc):
+    """-> (spec, einsum name).  Loop tile shapes follow from the sizes: a loop over r leaves size/iterations."""
+    import accelforge
+    from accelforge.frontend import arch as A
+    from accelforge.frontend.mapping import Compute, Mapping, Spatial, Storage, Temporal
+    from accelforge.frontend.workload import Workload
+
+    text, proj, _ = E2E_WORKLOADS[desc["workload"]]
+    size = _e2e_sizes(desc)
+    rw = [{"name": "read", "energy": 0, "throughput": "inf"}, {"name": "write", "energy": 0, "throughput": "inf"}]
+    used = {}
+    for lp in desc["spatial"]:
+        used[lp["dim"]] = used.get(lp["dim"], 1) * lp["fanout"]
+    fanouts = [{"name": d, "fanout": f + desc["slack"].get(d, 0)} for d, f in used.items()]
+    arch = A.Arch(nodes=[
+        A.Memory(name="MainMemory", size="inf", leak_power=0, area=0, tensors={"keep": "All"}, actions=rw),
+        A.Network(name="NoC", leak_power=0, area=0, topology=desc["topology"], total_latency="max_link_traffic",
+                  actions=[{"name": "hop", "energy": 1, "latency": 0, "throughput": "inf"}]),
+        A.Memory(name="PeBuffer", size="inf", leak_power=0, area=0, tensors={"keep": "All"}, actions=rw,
+                 spatial=fanouts),
+        A.Compute(name="MAC", leak_power=0, area=0, actions=[{"name": "compute", "energy": 0, "throughput": "inf"}]),
+    ])
+    wl = Workload(einsums=[text], rank_sizes={r.upper(): n for r, n in size.items()},
+                  bits_per_value={"All": desc["bits"]})
+    spec = accelforge.Spec(arch=arch, workload=wl)
+    name = wl.einsums[0].name
+    tensors = sorted(proj)
+    cur = dict(size)
+    nodes = [Storage(tensors=tensors, component="MainMemory")]
+    for lp in desc["above"]:
+        cur[lp["rv"]] //= lp["iters"]
+        nodes.append(Temporal(rank_variable=lp["rv"], tile_shape=cur[lp["rv"]]))
+    for lp in desc["spatial"]:
+        cur[lp["rv"]] //= lp["fanout"]
+        nodes.append(Spatial(rank_variable=lp["rv"], tile_shape=cur[lp["rv"]], component="PeBuffer", name=lp["dim"]))
+    nodes.append(Storage(tensors=tensors, component="PeBuffer"))
+    for r in desc["below"]:
+        nodes.append(Temporal(rank_variable=r, tile_shape=1))
+    nodes.append(Compute(einsum=name, component="MAC"))
+    spec.mapping = Mapping(nodes=nodes)
+    return spec, name
+
+
+def _e2e_levels(desc, tensor, nlevels=None):
+    """The tensor's fanout nest for vf/ref/routes.nest_routes: (axis, n, unicast, bits of one tile below the loop)."""
+    proj = E2E_WORKLOADS[desc["workload"]][1][tensor]
+    cur = _e2e_sizes(desc)
+    for lp in desc["above"]:
+        cur[lp["rv"]] //= lp["iters"]
+    levels = []
+    for lp in desc["spatial"]:
+        cur[lp["rv"]] //= lp["fanout"]
+        levels.append((lp["dim"], lp["fanout"], lp["rv"] in proj, desc["bits"] * _prod(cur[r] for r in proj)))
+    return levels if nlevels is None else levels[:nlevels]
+
+
+def _e2e_route(desc, nlevels=None):
+    """Route every tensor through the nest once -> ({tensor: hop volume}, busiest link volume, {axis: busiest})."""
+    load: dict = {}
+    hops = {}
+    for t in sorted(E2E_WORKLOADS[desc["workload"]][1]):
+        hops[t], _ = R.nest_routes(desc["topology"], _e2e_levels(desc, t, nlevels), load)
+    per_axis = R.busiest_link_per_axis(desc["topology"], load)
+    return hops, max(per_axis.values(), default=0), per_axis
+
+
+def _check_e2e(desc, col):
+    from accelforge.model.main import evaluate_mapping
+
+    topo, spatial, above = desc["topology"], desc["spatial"], desc["above"]
+    _, proj, out = E2E_WORKLOADS[desc["workload"]]
+    if any(lp["rv"] not in proj[out] for lp in above):
+        col.reject("e2e: temporal loop above the fanout does not index the output")    # never generated
+        return
+    dims = [lp["dim"] for lp in spatial]
+    if topo != "mesh" and len(set(dims)) > 1:
+        col.reject("e2e: all_to_all with two axes")                                     # never generated
+        return
+
+    spec, einsum = _e2e_build(desc)
+    res = must(evaluate_mapping, spec, what="evaluate_mapping")
+    row = res.data.iloc[0]
+    got_hops = {c.split("<SEP>")[-2]: float(row[c]) for c in res.data.columns
+                if "<SEP>action<SEP>NoC<SEP>" in c and c.endswith("<SEP>hop")}
+    got_traffic = float(row[f"{einsum}<SEP>latency<SEP>NoC"])
+
+    iters = _prod(lp["iters"] for lp in above)
+    hops1, traffic1, per_axis = _e2e_route(desc)
+    want_hops = {t: h * iters for t, h in hops1.items()}
+    want_traffic = traffic1 * iters
+
+    # ---- classification ------------------------------------------------------------------------
+    stride = []                                   # fanout below on the same axis, per loop
+    for i, lp in enumerate(spatial):
+        stride.append(_prod(q["fanout"] for q in spatial[i + 1:] if q["dim"] == lp["dim"]))
+    nested_same_dim = any(s > 1 and lp["fanout"] >= 2 for s, lp in zip(stride, spatial))
+    has_f1 = any(lp["fanout"] == 1 for lp in spatial)
+    nontrivial = any(lp["fanout"] >= 2 for lp in spatial)
+    top_run = 1
+    while top_run < len(dims) and dims[top_run] == dims[0]:
+        top_run += 1
+    interleaved = any(d == dims[0] for d in dims[top_run:])          # an axis comes back below another axis
+    casts = {t: "".join("U" if lp["rv"] in proj[t] else "M" for lp in spatial) for t in proj}
+    kinds = {c for s in casts.values() for c in s}
+    labels = ["family:e2e", f"e2e:topology:{topo}", f"e2e:workload:{desc['workload']}", f"e2e:spatial-loops:{len(spatial)}",
+              f"e2e:temporal-above:{len(above)}",
+              "e2e:axes:" + ("1" if len(set(dims)) == 1 else "2-interleaved" if interleaved else "2"),
+              "e2e:cast-mix:" + ("unicast+multicast" if len(kinds) == 2 else "unicast-only" if kinds == {"U"} else "multicast-only"),
+              "e2e:max-stride:" + ("1" if max(stride) == 1 else "2-4" if max(stride) <= 4 else ">=5"),
+              "e2e:tile>1" if any(desc["rest"].get(lp["rv"], 1) > 1 for lp in spatial) else "e2e:tile=1"]
+    labels += ["e2e:tensor-cast:" + s for s in sorted(set(casts.values())) if len(s) >= 2]
+    if nested_same_dim:
+        labels.append("e2e:nested_same_dim")
+        labels.append(f"e2e:nested_same_dim:{topo}")
+    if has_f1:
+        labels.append("e2e:has-fanout-1-loop(hops only)")
+    if any(v for v in desc["slack"].values()):
+        labels.append("e2e:arch-fanout>used")
+    col.case(desc, nontrivial, labels,
+             sample={"case": desc, "routed_hops": want_hops, "reported_hops": got_hops,
+                     "routed_max_link": want_traffic, "reported_max_link": got_traffic, "busiest_per_axis(1 iteration)": per_axis}
+             if nested_same_dim else None)
+
+    # ---- hops ------------------------------------------------------------------------------------
+    what = (f"{desc['workload']} on {topo}, spatial loops (top to bottom) "
+            + ", ".join(f"{lp['rv']}:{lp['dim']}x{lp['fanout']}(stride {s})" for lp, s in zip(spatial, stride))
+            + (f", temporal above {[(lp['rv'], lp['iters']) for lp in above]}" if above else "")
+            + f", sizes {_e2e_sizes(desc)}, {desc['bits']} bits/value")
+    for t in sorted(want_hops):
+        if t not in got_hops:
+            raise Violation(f"{what}: no NoC hop count reported for tensor {t} (columns: {sorted(got_hops)})",
+                            key=f"e2e:{topo}:hops-missing")
+        if not close(got_hops[t], float(want_hops[t]), rel=1e-6, abs_=1e-9):
+            raise Violation(
+                f"{what}: tensor {t} (casts {casts[t]}): reported NoC hops {got_hops[t]:g}, routing every tile through the "
+                f"nest {_e2e_levels(desc, t)} gives {want_hops[t]} (all tensors: reported {got_hops}, routed {want_hops})",
+                key=f"e2e:{topo}:hops")
+
+    # ---- max link traffic --------------------------------------------------------------------------
+    if has_f1:
+        return                                  # n = 1 fanout: only hops are asserted (DESIGN.md §8)
+    if close(got_traffic, float(want_traffic), rel=1e-6, abs_=1e-9):
+        return
+    msg = (f"{what}: reported max link traffic {got_traffic:g}, the busiest link of the routed nest carries "
+           f"{want_traffic} ({traffic1} per iteration x {iters} iterations above; per axis {per_axis})")
+    if iters > 1 and close(got_traffic, float(traffic1), rel=1e-6, abs_=1e-9):
+        raise Violation(msg + " -- the reported value is the traffic of ONE iteration of the temporal loops above the "
+                        "fanout, although the hop counts are multiplied by the iterations", key=KEY_TEMPORAL_ABOVE)
+    if len(set(dims)) > 1:
+        _, dropped, _ = _e2e_route(desc, top_run)     # what is left if only the top run of same-axis loops is counted
+        if close(got_traffic, float(dropped), rel=1e-6, abs_=1e-9) or close(got_traffic, float(dropped * iters), rel=1e-6, abs_=1e-9):
+            raise Violation(msg + f" -- the reported value counts only the top {top_run} loop(s) on axis {dims[0]} ({dropped} per "
+                            f"iteration); the traffic of every loop below the first {dims[top_run]} loop is lost",
+                            key=KEY_OTHER_AXIS)
+    raise Violation(msg, key=f"e2e:{topo}:traffic")
+
+
+def check(desc, col):
+    if desc.get("family") == "e2e":
+        _check_e2e(desc, col)
+    else:
+        _check_box(desc, col)
+
+
+E2E_N = {"quick": 600, "thorough": 6000}
+E2E_SHARDS = 6
+
+
 def shards(tier, seed):
     lim = LIMITS[tier]
-    return [{"k": k, **lim} for k in range(NSHARDS)]
+    box = [{"family": "exhaustive", "k": k, **lim} for k in range(NSHARDS)]
+    e2e = [{"family": "e2e", "k": k, "n_cases": E2E_N[tier] // E2E_SHARDS, "seed": seed} for k in range(E2E_SHARDS)]
+    return e2e + box
 
 
 def run_shard(shard, col):
+    if shard.get("family") == "e2e":
+        import accelforge
+
+        accelforge.set_n_parallel_jobs(1)
+        col.exhaustive = False
+        drive(e2e_cases(), check, n=shard["n_cases"], seed=hash32(shard["seed"], "C30", "e2e", shard["k"]), col=col)
+        return
     k = shard["k"]
     for n in range(1, shard["n"] + 1):
         if n % NSHARDS != k:
@@ -144,6 +483,7 @@ def run_shard(shard, col):
                         col.run_case({"topology": topo, "relevancy": rel, "n": n, "stride": stride, "volume": vol},
                                      check)
     col.exhaustive = True
+    col.extra["box_family_shards_completed"] = 1
 
 
 def replay(desc, col):
@@ -152,7 +492,7 @@ def replay(desc, col):
 
 REGISTER = True
 MANIFEST = {
-    "level_text": "Exhaustive enumeration of a finite box: both topologies x multicast/unicast x every fanout 1..32 (thorough 1..64) x every stride 1..8 (1..12) x volumes {1, 3, 8, 2.5, symbolic V} (thorough adds 0.125, 7, 1000); each case is compared with a route-by-route reference. Inside the box the property is decided; outside nothing is claimed.",
-    "level_note": "Trusted: vf/ref/routes.py (about 40 lines; line/switch routing written from the property text). Only the non-distributed source is covered; max_hops is not part of the property. n = 1 asserts total hops only. Symbolic volume is compared by substitution at V = 0, 1, 3.5 after checking no other symbol occurs.",
-    "technique": "exhaustive enumeration against a brute-force route-enumeration reference",
+    "level_text": "Two families. (1) Exhaustive enumeration of a finite box: both topologies x multicast/unicast x every fanout 1..32 (thorough 1..64) x every stride 1..8 (1..12) x volumes {1, 3, 8, 2.5, symbolic V} (thorough adds 0.125, 7, 1000); each case is compared with a route-by-route reference. Inside the box the closed forms of per_loop_transfer_cost are decided. (2) Random exploration end to end: 600 (thorough 6000) generated evaluate_mapping cases per run (one Einsum, MainMemory -> Network mesh/all_to_all -> PE buffers on one or two axes, 1-3 nested spatial loops, >= 40% with one axis split between nested loops, optional temporal loops above); the reported per-tensor hop counts and max link traffic are compared with link-by-link routing of every tile through the whole nest. No counterexample in N cases is not a proof: larger fanouts, distributed sources, loops between the spatial loops, tensors bypassing the PE buffer and imperfect factorisation are not explored.",
+    "level_note": "Trusted: vf/ref/routes.py (about 40 lines line/switch routing + about 60 lines nested routing, written from the property text and the Network docstring). The e2e family assumes hierarchical delivery in loop order, non-directional links, refetch on every enclosing iteration; all_to_all only with one axis; fanout-1 loops assert hops only. Two open findings about max_link_traffic (temporal loops above the fanout; an axis split around a loop of another axis) are excluded by exact signature. Only the non-distributed source is covered; max_hops is not part of the property. n = 1 asserts total hops only. Symbolic volume is compared by substitution at V = 0, 1, 3.5 after checking no other symbol occurs.",
+    "technique": "exhaustive enumeration against a brute-force route-enumeration reference + property-based end-to-end testing (Hypothesis) against link-by-link routing of the whole fanout nest",
 }
